@@ -215,10 +215,13 @@ def r4(ctx):
   pr = prog.func(TM, 'SocketTransportSink._ProcessReply')
   un = [st for st in ast.walk(pr.node) if isinstance(st, ast.Assign) and isinstance(st.value, ast.Call) and call_attr(st.value) == 'ReadHeader']
   rt = [c for c in ast.walk(pr.node) if isinstance(c, ast.Call) and call_attr(c) == '_ProcessTaggedReply']
-  ok = len(un) == 1 and isinstance(un[0].targets[0], ast.Tuple) and len(un[0].targets[0].elts) == 2 and len(rt) == 1
+  ok = len(un) == 1 and isinstance(un[0].targets[0], ast.Tuple) and len(un[0].targets[0].elts) == 2 and len(rt) >= 1
   if ok:
     tname = U(un[0].targets[0].elts[1])
-    ok = [U(a) for a in rt[0].args] == [tname, pr.params[1]] and U(un[0].value.args[0]) == pr.params[1]
+    ok = all([U(a) for a in r_.args] == [tname, pr.params[1]] for r_ in rt) and U(un[0].value.args[0]) == pr.params[1]
+    # at most one delivery per frame
+    for ev_, ex_ in enum_paths(ctx, pr):
+      ok = ok and len([e for e in ev_ if e.kind == 'call' and call_attr(e.node) == '_ProcessTaggedReply']) <= 1
   ctx.ob('C02.R4', pr, 'thriftmux reply routed by the tag read from its header', ok, 'routing is %s' % [U(c) for c in rt], why)
   # shutdown reader agrees on the tuple shape
   sh = prog.func(MUX, 'MuxSocketTransportSink._Shutdown')
